@@ -24,11 +24,11 @@ inductive Number where
   | flt (f : F64)               -- Number::Float(OrderedFloat(f))
   deriving Repr, DecidableEq, Inhabited
 
+/-- the only invariant comparisons rely on: a positive denominator. (The 56-bit range of a fixnum
+    payload is irrelevant here: every theorem holds for any payload.) -/
 def Number.wf : Number → Prop
-  | .fix v => -(2:Int)^55 ≤ v ∧ v < (2:Int)^55
-  | .big _ => True
   | .rat _ d => 0 < d
-  | .flt _ => True
+  | _ => True
 
 def Number.isFloat : Number → Bool
   | .flt _ => true
